@@ -481,6 +481,17 @@ pub fn history(cx: &mut Ctx, family: &str, maxops: u64) {
                 } else {
                     let src = *cx.rng.pick(&others);
                     let f = fuse_for(cx, &h);
+                    if f.is_none() && cx.rng.chance(1, 5) {
+                        // a destination mid-resize whose main table holds nothing but tombstones
+                        if cx.maps[s].as_ref().unwrap().verif_state().old.is_none() {
+                            drive(cx, s, &h, 1);
+                        }
+                        if !cx.abort && cx.maps[s].as_ref().unwrap().verif_state().old.map_or(0, |o| o.0) > 0 {
+                            for k in keys_where(cx, s, true) {
+                                op_remove(cx, s, false, k);
+                            }
+                        }
+                    }
                     op_clone_from(cx, s, src, f);
                 }
             }
